@@ -342,11 +342,11 @@ def run_wrapper(base, w):
             mk = lambda f: base.SE2State(pf(f[0]), pf(f[1]), pf(f[2]))
         elif ctor == "SE3StateSpace":
             sp = base.SE3StateSpace(pf(w["weight"]), [(pf(p[0]), pf(p[1])) for p in w["bounds"]])
-            mk = None
+            mk = lambda f: base.SE3State(pf(f[0]), pf(f[1]), pf(f[2]), base.SO3State(pf(f[3]), pf(f[4]), pf(f[5]), pf(f[6])))
         elif ctor == "CompoundStateSpace":
             subs = [base.SO2StateSpace(None) for _ in range(w["n_subspaces"])]
             sp = base.CompoundStateSpace(subs, [pf(x) for x in w["weights"]])
-            mk = None
+            mk = lambda f: base.CompoundState([base.SO2State(pf(x)) for x in f])
         else:
             raise AssertionError(ctor)
         out["outcome"] = "ok"
